@@ -35,6 +35,11 @@ type vfFamCSection struct {
 	Mid    string        `json:"mid"`
 	Dir    string        `json:"dir"`
 	Codecs []vfFamCCodec `json:"codecs"`
+	// Port0: "" = ordinary section (port 9); "bundle-only" = live section with port 0 and
+	// a=bundle-only, listed in the BUNDLE group (RFC 8843 §7.2.1 / JSEP max-bundle; never the
+	// first bundled section); "rejected" = port 0, not in the BUNDLE group (a retired section,
+	// its contents are to be ignored).
+	Port0 string `json:"port0,omitempty"`
 }
 
 type vfFamCOffer struct {
@@ -64,7 +69,9 @@ func vfFamCOfferSDP(o vfFamCOffer, sessionVersion int) string {
 	w("t=0 0")
 	mids := []string{}
 	for _, s := range o.Sections {
-		mids = append(mids, s.Mid)
+		if s.Port0 != "rejected" {
+			mids = append(mids, s.Mid)
+		}
 	}
 	if o.Data {
 		mids = append(mids, "data")
@@ -78,10 +85,17 @@ func vfFamCOfferSDP(o vfFamCOffer, sessionVersion int) string {
 		for _, c := range s.Codecs {
 			pts = append(pts, fmt.Sprint(c.PT))
 		}
-		w("m=%s 9 UDP/TLS/RTP/SAVPF %s", s.Kind, strings.Join(pts, " "))
+		port := 9
+		if s.Port0 != "" {
+			port = 0
+		}
+		w("m=%s %d UDP/TLS/RTP/SAVPF %s", s.Kind, port, strings.Join(pts, " "))
 		w("c=IN IP4 0.0.0.0")
 		w("a=rtcp:9 IN IP4 0.0.0.0")
 		w("a=mid:%s", s.Mid)
+		if s.Port0 == "bundle-only" {
+			w("a=bundle-only")
+		}
 		w("a=%s", s.Dir)
 		w("a=rtcp-mux")
 		w("a=setup:actpass")
@@ -637,7 +651,8 @@ func (g *vfFamCOfferGen) derive(first vfFamCSection, mid string) vfFamCSection {
 }
 
 // vfFamCGenOffer draws a sound offer. multi allows a second section of a kind.
-func vfFamCGenOffer(t *rapid.T, local vfFamCLocal, multi bool, keepCodecSpecificClock bool) (vfFamCOffer, *vfFamCOfferGen) {
+// rejected additionally allows retired (port 0, un-bundled) sections behind the first one.
+func vfFamCGenOffer(t *rapid.T, local vfFamCLocal, multi bool, keepCodecSpecificClock bool, rejected bool) (vfFamCOffer, *vfFamCOfferGen) {
 	g := &vfFamCOfferGen{t: t, local: local, pts: &vfFamCPTs{used: map[uint8]string{}}, keepCodecSpecificClock: keepCodecSpecificClock}
 	var o vfFamCOffer
 	layouts := [][]string{{"audio"}, {"video"}, {"audio", "video"}, {"video", "audio"}}
@@ -657,5 +672,22 @@ func vfFamCGenOffer(t *rapid.T, local vfFamCLocal, multi bool, keepCodecSpecific
 		}
 	}
 	o.Data = rapid.IntRange(0, 3).Draw(t, "data") == 0
+	// port-0 sections behind the first one: JSEP max-bundle (all bundle-only), some bundle-only,
+	// some retired
+	switch rapid.IntRange(0, 9).Draw(t, "port0Mode") {
+	case 0, 1, 2: // max-bundle offer
+		for i := 1; i < len(o.Sections); i++ {
+			o.Sections[i].Port0 = "bundle-only"
+		}
+	case 3, 4:
+		for i := 1; i < len(o.Sections); i++ {
+			switch k := rapid.IntRange(0, 5).Draw(t, "port0"); {
+			case k < 3:
+				o.Sections[i].Port0 = "bundle-only"
+			case k == 3 && rejected:
+				o.Sections[i].Port0 = "rejected"
+			}
+		}
+	}
 	return o, g
 }
